@@ -94,7 +94,8 @@ def r1_identifiers(ctx: Ctx) -> None:
         m = te.methods.get(mname)
         if m is None:
             continue
-        ok = any(isinstance(s, ast.Assign) and src(s.value).endswith('.id.lower()') for s in ast.walk(m.node))
+        ok = any(isinstance(s, ast.Assign) and (src(s.value).endswith('.id.lower()') or any(
+            isinstance(t, ast.Subscript) and src(t.slice).endswith('.id.lower()') for t in s.targets)) for s in ast.walk(m.node))
         ctx.check(ok, 'C04.R1', m, f'define:{mname}', 'loop / walrus variable stored lower-cased', 'loop or walrus variable is stored as written but looked up lower-cased', m.node)
 
     # every identifier read off an expression tree (`<node>.id`) anywhere in the package is lower-cased before it is used as a name
